@@ -301,10 +301,12 @@ def run_race(seed, dec, cfg):
                 raise Violation("remote_count", "%d remote_task start messages" % len(remote_starts))
             origin = [m for m in msgs if m.get("action_type") == "origin" and m.get("action_status") == "started"][0]
             rs = remote_starts[0]
-            if rs["task_uuid"] != origin["task_uuid"] or rs["task_level"] != [2, 1]:
+            # (a position directly inside the originating action; which number is the implementation's)
+            if rs["task_uuid"] != origin["task_uuid"] or len(rs["task_level"]) != 2 or rs["task_level"][1] != 1:
                 raise Violation("remote_misplaced", "remote task started at %s %s" % (rs["task_uuid"], rs["task_level"]))
+            slot = rs["task_level"][:1]
             inside = [m for m in msgs if m.get("message_type") == "inside"]
-            if len(inside) != 1 or inside[0]["task_level"][:1] != [2] or inside[0]["task_uuid"] != origin["task_uuid"]:
+            if len(inside) != 1 or inside[0]["task_level"][:1] != slot or inside[0]["task_uuid"] != origin["task_uuid"]:
                 raise Violation("remote_misplaced", "message logged by f is at %r" % (
                     [(m["task_uuid"], m["task_level"]) for m in inside],))
             from eliot.parse import Parser
